@@ -568,7 +568,7 @@ pub fn prop() -> Prop<Case> {
     Prop {
         id: "C11",
         level: "exploration",
-        rule: "enumeration: every ordered pair of the 4681 paths of depth<=4 over {a, a., a-, 'a b', b, é, .x, ~} (cmp vs documented order, antisymmetry, equality), every triple of the 259 paths of depth<=3 over 6 of them (transitivity), contiguity/children-first on the depth<=3 universe, is_valid on every string of <=4 (thorough 5) components over {'', ., .., a\\0b, a, é, a., ..a, \\0} x leading/trailing slash; generated: random longer paths/strings and trees (source walk, listing and independently decoded index each strictly increasing under the reference order and equal to the model's path set). Non-trivial pair = distinct paths sharing the first component whose depths differ or one textually prefixes the other; non-trivial tree = >=2 directory levels with sibling names that extend one another; enumerated items are distinct by construction, generated ones by case hash. A tenth of the tree cases truncate a later file of the same directory while the backup runs (index and listing must stay strictly increasing); three fixed scale probes per run (10 012 files, one entry per hunk; 1200 files under directories whose names extend one another, all in one hunk; one 272 MiB file between small ones); generated paths and trees now and then have names of up to 250 bytes (paths beyond 255 and beyond 4096 bytes); since round 6 a further tenth move a directory out of the tree when the backup reports its first file and back a few reported files later, trees may be 9-44 levels deep, and a fourth probe walks 100 200 files with default options; since round 7 every generated string is also parsed (FromStr): accepted exactly when well-formed, yielding that very string; names may end in white space",
+        rule: "enumeration: every ordered pair of the 4681 paths of depth<=4 over {a, a., a-, 'a b', b, é, .x, ~} (cmp vs documented order, antisymmetry, equality), every triple of the 259 paths of depth<=3 over 6 of them (transitivity), contiguity/children-first on the depth<=3 universe, is_valid on every string of <=4 (thorough 5) components over {'', ., .., a\\0b, a, é, a., ..a, \\0} x leading/trailing slash; generated: random longer paths/strings and trees (source walk, listing and independently decoded index each strictly increasing under the reference order and equal to the model's path set). Non-trivial pair = distinct paths sharing the first component whose depths differ or one textually prefixes the other; non-trivial tree = >=2 directory levels with sibling names that extend one another; enumerated items are distinct by construction, generated ones by case hash. A tenth of the tree cases truncate a later file of the same directory while the backup runs (index and listing must stay strictly increasing); three fixed scale probes per run (10 012 files, one entry per hunk; 1200 files under directories whose names extend one another, all in one hunk; one 272 MiB file between small ones); generated paths and trees now and then have names of up to 250 bytes (paths beyond 255 and beyond 4096 bytes); since round 6 a further tenth move a directory out of the tree when the backup reports its first file and back a few reported files later, trees may be 9-44 levels deep, and a fourth probe walks 100 200 files with default options; since round 7 every generated string is also parsed (FromStr): accepted exactly when well-formed, yielding that very string; names may end in white space; since round 8 a case kind in which one directory also holds names that are not valid UTF-8, pairwise differing only in their invalid bytes (conserve leaves them out): walk, written index and listing stay strictly increasing and hold every path of the tree",
         assumptions: &[
             "reference order written from doc/format.md on byte slices, independent of src/apath.rs",
             "release-like build: conserve's debug-only order assertions are compiled out, so the oracle is the harness's own",
